@@ -59,31 +59,53 @@ theorem checkTxs_runeSafe (height : Nat) (txs : List Tx) (u : Valid.Utxos) (fees
           · cases hct
       · exact ih u' (fees + fee) h tx hmem
 
-theorem checkBlock_runeSafe (st st' : Valid.VState) (blk : Block) (h : Valid.checkBlock st blk = some st') :
-    ∀ tx ∈ blk.txs, RuneSafe blk.height tx := by
+/-- everything `checkBlock` checked, in one place -/
+theorem checkBlock_facts (st st' : Valid.VState) (blk : Block) (h : Valid.checkBlock st blk = some st') :
+    ∃ cb rest txids u fees, blk.txs = cb :: rest ∧ blk.height = st.height ∧
+      blk.txs.length ≤ Valid.maxBlockTxs ∧
+      Valid.coinbaseShape cb = true ∧ Valid.txWellFormed cb = true ∧
+      Valid.freshTxids st.txids (blk.txs.map (·.txid)) = some txids ∧
+      Valid.checkTxs blk.height rest st.utxos 0 = some (u, fees) ∧
+      st'.height = st.height + 1 ∧ st'.txids = txids := by
   unfold Valid.checkBlock at h
   split at h
   · cases h
   · rename_i cb rest hb
     split at h
     · cases h
-    · split at h
+    · rename_i hheight
+      split at h
       · cases h
-      · rename_i hcb
-        simp only [Bool.not_eq_false, Bool.and_eq_true, Bool.not_eq_eq_eq_not, Bool.not_true] at hcb
+      · rename_i hlen
         split at h
         · cases h
-        · split at h
+        · rename_i hcb
+          split at h
           · cases h
-          · rename_i u fees hct
-            intro tx htx
-            rw [hb] at htx
-            rcases List.mem_cons.1 htx with rfl | hmem
-            · have hcb' : (Valid.coinbaseShape tx && Valid.txWellFormed tx) = true := by
-                cases hx : (Valid.coinbaseShape tx && Valid.txWellFormed tx) <;> simp_all
-              simp only [Bool.and_eq_true] at hcb'
-              exact runeSafe_of_coinbase blk.height tx hcb'.1 hcb'.2
-            · exact checkTxs_runeSafe blk.height rest st.utxos 0 _ hct tx hmem
+          · rename_i txids hfresh
+            split at h
+            · cases h
+            · rename_i u fees hct
+              simp only [] at h
+              split at h
+              · simp only [Option.some.injEq] at h
+                subst h
+                have hcb' : (Valid.coinbaseShape cb && Valid.txWellFormed cb) = true := by
+                  cases hx : (Valid.coinbaseShape cb && Valid.txWellFormed cb) <;> simp_all
+                simp only [Bool.and_eq_true] at hcb'
+                refine ⟨cb, rest, txids, u, fees, hb, ?_, ?_, hcb'.1, hcb'.2, hfresh, hct, rfl, rfl⟩
+                · simpa using hheight
+                · simpa using hlen
+              · cases h
+
+theorem checkBlock_runeSafe (st st' : Valid.VState) (blk : Block) (h : Valid.checkBlock st blk = some st') :
+    ∀ tx ∈ blk.txs, RuneSafe blk.height tx := by
+  obtain ⟨cb, rest, txids, u, fees, hb, _, _, hshape, hwf, _, hct, _, _⟩ := checkBlock_facts st st' blk h
+  intro tx htx
+  rw [hb] at htx
+  rcases List.mem_cons.1 htx with rfl | hmem
+  · exact runeSafe_of_coinbase blk.height tx hshape hwf
+  · exact checkTxs_runeSafe blk.height rest st.utxos 0 _ hct tx hmem
 
 theorem checkChain_runeSafe (chain : List Block) (st st' : Valid.VState) (h : Valid.checkChain chain st = some st') :
     ∀ b ∈ chain, ∀ tx ∈ b.txs, RuneSafe b.height tx := by
